@@ -6,6 +6,7 @@
 mod designer;
 mod docgen;
 mod env;
+mod propgen;
 mod rng;
 mod sexp;
 mod xml;
